@@ -1781,6 +1781,7 @@ def check(ctx):
 
 
 MUTANTS = [
+    Mutant("sentinel-iterator-pointer-walk-without-the-visited-test", DNS, "        visited = set()\n        self.name = b\"\"\n        off = 0\n        while 1:\n            l = ord(readPrecisely(strio, 1))\n            if l == 0:\n                if off > 0:\n                    strio.seek(off)\n                return\n            if (l >> 6) == 3:\n                new_off = (l & 63) << 8 | ord(readPrecisely(strio, 1))\n                if new_off in visited:\n                    raise ValueError(\"Compression loop in encoded name\")\n                visited.add(new_off)\n                if off == 0:\n                    off = strio.tell()\n                strio.seek(new_off)\n                continue\n            label = readPrecisely(strio, l)\n            if self.name == b\"\":\n                self.name = label\n            else:\n                self.name = self.name + b\".\" + label\n", "        seen = set()\n        self.name = b\"\"\n        resume = 0\n\n        def octet():\n            return ord(readPrecisely(strio, 1))\n\n        for n in iter(octet, 0):\n            if (n >> 6) != 3:\n                piece = readPrecisely(strio, n)\n                self.name = piece if self.name == b\"\" else self.name + b\".\" + piece\n                continue\n            where = (n & 63) << 8 | octet()\n            seen.add(where)\n            if resume == 0:\n                resume = strio.tell()\n            strio.seek(where)\n        if resume > 0:\n            strio.seek(resume)\n", expect_rule="termination/pointer-visited-test"),
     Mutant("payload-decoded-through-a-helper-without-its-length", DNS, "            t = self.lookupRecordType(header.type)\n            if not t:\n                continue\n            header.payload = t(ttl=header.ttl)\n            try:\n                header.payload.decode(strio, header.rdlength)\n            except EOFError:\n                return\n            list.append(header)\n", "            t = self.lookupRecordType(header.type)\n            if not t:\n                continue\n            header.payload = t(ttl=header.ttl)\n            if _cutShort(header.payload, strio):\n                return\n            list.append(header)\n", more=[(DNS, "def readPrecisely(file, l):\n", "def _cutShort(thing, stream, *more):\n    try:\n        thing.decode(stream, *more)\n    except EOFError:\n        return True\n    else:\n        return False\n\n\ndef readPrecisely(file, l):\n")], expect_rule="escape/length-supplied"),
     Mutant("label-generator-never-tests-the-visited-set", DNS, "        visited = set()\n        self.name = b\"\"\n        off = 0\n        while 1:\n            l = ord(readPrecisely(strio, 1))\n            if l == 0:\n                if off > 0:\n                    strio.seek(off)\n                return\n            if (l >> 6) == 3:\n                new_off = (l & 63) << 8 | ord(readPrecisely(strio, 1))\n                if new_off in visited:\n                    raise ValueError(\"Compression loop in encoded name\")\n                visited.add(new_off)\n                if off == 0:\n                    off = strio.tell()\n                strio.seek(new_off)\n                continue\n            label = readPrecisely(strio, l)\n            if self.name == b\"\":\n                self.name = label\n            else:\n                self.name = self.name + b\".\" + label\n", "        parts = list(_walkLabels(strio))\n        self.name = b\".\".join(parts)\n", more=[(DNS, "def readPrecisely(file, l):\n", "def _walkLabels(stream):\n    back = 0\n    seen = set()\n    while True:\n        n = ord(readPrecisely(stream, 1))\n        if n == 0:\n            if back > 0:\n                stream.seek(back)\n            return\n        if n & 0xC0 != 0xC0:\n            yield readPrecisely(stream, n)\n            continue\n        where = (n & 0x3F) << 8 | ord(readPrecisely(stream, 1))\n        seen.add(where)\n        if back == 0:\n            back = stream.tell()\n        stream.seek(where)\n\n\ndef readPrecisely(file, l):\n")], expect_rule="termination/pointer-visited-test"),
     Mutant("sections-parsed-in-an-endless-cycle", DNS, "        items = ((self.answers, nans), (self.authority, nns), (self.additional, nadd))\n\n        for l, n in items:\n            self.parseRecords(l, n, strio)\n",
@@ -1858,6 +1859,7 @@ MUTANTS = [
 ]
 
 SILENT = [
+    Silent("pointer-walk-as-a-sentinel-iterator-loop-with-a-local-reader", DNS, "        visited = set()\n        self.name = b\"\"\n        off = 0\n        while 1:\n            l = ord(readPrecisely(strio, 1))\n            if l == 0:\n                if off > 0:\n                    strio.seek(off)\n                return\n            if (l >> 6) == 3:\n                new_off = (l & 63) << 8 | ord(readPrecisely(strio, 1))\n                if new_off in visited:\n                    raise ValueError(\"Compression loop in encoded name\")\n                visited.add(new_off)\n                if off == 0:\n                    off = strio.tell()\n                strio.seek(new_off)\n                continue\n            label = readPrecisely(strio, l)\n            if self.name == b\"\":\n                self.name = label\n            else:\n                self.name = self.name + b\".\" + label\n", "        seen = set()\n        self.name = b\"\"\n        resume = 0\n\n        def octet():\n            return ord(readPrecisely(strio, 1))\n\n        for n in iter(octet, 0):\n            if (n >> 6) != 3:\n                piece = readPrecisely(strio, n)\n                self.name = piece if self.name == b\"\" else self.name + b\".\" + piece\n                continue\n            where = (n & 63) << 8 | octet()\n            if where in seen:\n                raise ValueError(\"Compression loop in encoded name\")\n            seen.add(where)\n            if resume == 0:\n                resume = strio.tell()\n            strio.seek(where)\n        if resume > 0:\n            strio.seek(resume)\n"),
     # a helper taking the decodable as a parameter is read at its call sites; the pointer walk as a private generator
     Silent("payload-decoded-through-a-helper-that-reports-truncation", DNS, "            t = self.lookupRecordType(header.type)\n            if not t:\n                continue\n            header.payload = t(ttl=header.ttl)\n            try:\n                header.payload.decode(strio, header.rdlength)\n            except EOFError:\n                return\n            list.append(header)\n", "            t = self.lookupRecordType(header.type)\n            if not t:\n                continue\n            header.payload = t(ttl=header.ttl)\n            if _cutShort(header.payload, strio, header.rdlength):\n                return\n            list.append(header)\n", more=[(DNS, "def readPrecisely(file, l):\n", "def _cutShort(thing, stream, *more):\n    try:\n        thing.decode(stream, *more)\n    except EOFError:\n        return True\n    else:\n        return False\n\n\ndef readPrecisely(file, l):\n")]),
     Silent("name-labels-from-a-private-generator", DNS, "        visited = set()\n        self.name = b\"\"\n        off = 0\n        while 1:\n            l = ord(readPrecisely(strio, 1))\n            if l == 0:\n                if off > 0:\n                    strio.seek(off)\n                return\n            if (l >> 6) == 3:\n                new_off = (l & 63) << 8 | ord(readPrecisely(strio, 1))\n                if new_off in visited:\n                    raise ValueError(\"Compression loop in encoded name\")\n                visited.add(new_off)\n                if off == 0:\n                    off = strio.tell()\n                strio.seek(new_off)\n                continue\n            label = readPrecisely(strio, l)\n            if self.name == b\"\":\n                self.name = label\n            else:\n                self.name = self.name + b\".\" + label\n", "        parts = list(_walkLabels(strio))\n        self.name = b\".\".join(parts)\n", more=[(DNS, "def readPrecisely(file, l):\n", "def _walkLabels(stream):\n    back = 0\n    seen = set()\n    while True:\n        n = ord(readPrecisely(stream, 1))\n        if n == 0:\n            if back > 0:\n                stream.seek(back)\n            return\n        if n & 0xC0 != 0xC0:\n            yield readPrecisely(stream, n)\n            continue\n        where = (n & 0x3F) << 8 | ord(readPrecisely(stream, 1))\n        if where in seen:\n            raise ValueError(\"Compression loop in encoded name\")\n        seen.add(where)\n        if back == 0:\n            back = stream.tell()\n        stream.seek(where)\n\n\ndef readPrecisely(file, l):\n")]),
